@@ -820,7 +820,8 @@ fn ftrl_model(r: &mut Runner) {
             ob.done()
         };
         // Ftrl has no PartialEq
-        round_trip(o, &Spec::plain(&obs), &m);
+        let advance = |m: &linfa_ftrl::Ftrl<F>| v.fit_with(Some(m.clone()), &ds2).expect("continue");
+        round_trip(o, &Spec::plain(&obs).mutating(&advance), &m);
     }
     r.inst("f64/one_batch", |o| go::<f64>(o, ftrl_points().remove(1).1, 1));
     r.inst("f64/three_batches", |o| go::<f64>(o, ftrl_points().remove(2).1, 3));
